@@ -3053,6 +3053,10 @@ foamTagFormat(Foam foam)
 			format = STD_FORMS + si;
 		else
 			format = FOAM_FORMAT_FOR(si);
+
+		/* A Prog's format index is written in the same format as its count. */
+		if (tag == FOAM_Prog && FOAM_FORMAT_FOR(foam->foamProg.format) < format)
+			format = FOAM_FORMAT_FOR(foam->foamProg.format);
 	}
 	else {
 		switch (tag) {
